@@ -9,8 +9,44 @@ FAMILIES = [('trees', 260, 7000, {}), ('untils', 60, 1000, {})]
 MONITORS = ['C04']
 
 
+def teardown_races(rng, n):
+    """directed family: a child is cancelled individually and, in the SAME activation, its scope is torn down (the body
+    raises, a sibling fails, the owner is closed, the until-notification holds).  The child has cancellation handling
+    that would log and wait; none of it may run after the block was left."""
+    out = []
+    for _ in range(n):
+        d = rng.choice([1, 2, 3])
+        handler = [['log', 11], ['await', ['delay', 1]], ['log', 12]]
+        child = [['try', [['await', ['delay', 9]], ['log', 10]], [[['task_cancelled'], handler]],
+                 [['log', 13]] if rng.random() < 0.4 else []], ['log', 14]]
+        how = rng.choice(['raise', 'sibling', 'until', 'owner-cancel'])
+        vol = rng.random() < 0.25
+        spawn = [['do', 2, 1, ['now'], vol, child]]
+        if how == 'raise':
+            body = spawn + [['await', ['delay', d]], ['cancel', 1, 5], ['raise', rng.choice([0, 1])]]
+            blk = ['try', [['scope', 2, body]], [[['exception'], [['log', 20]]]], []]
+            owner = [blk, ['log', 21], ['await', ['delay', 3]], ['log', 22]]
+            roots = [owner]
+        elif how == 'sibling':
+            sib = [['await', ['delay', d]], ['cancel', 1, 5], ['raise', 2]]
+            body = spawn + [['do', 2, 2, ['now'], False, sib], ['await', ['delay', 8]], ['log', 15]]
+            blk = ['try', [['scope', 2, body]], [[['concurrent'], [['log', 20]]]], []]
+            roots = [[blk, ['log', 21], ['await', ['delay', 3]], ['log', 22]]]
+        elif how == 'until':
+            body = spawn + [['await', ['delay', d]], ['cancel', 1, 5], ['set_flag', 0, True], ['log', 16], ['await', ['delay', 5]], ['log', 15]]
+            roots = [[['until', 2, ['flag', 0], body], ['log', 21], ['await', ['delay', 3]], ['log', 22]]]
+        else:
+            body = spawn + [['await', ['delay', 8]], ['log', 15]]
+            owner = [['scope', 3, [['do', 3, 3, ['now'], False, [['scope', 2, body], ['log', 17]]], ['await', ['delay', d]],
+                                   ['cancel', 1, 5], ['cancel', 3, 6], ['log', 18]]], ['log', 21], ['await', ['delay', 3]], ['log', 22]]
+            roots = [owner]
+        out.append(('teardown-races', dict(start=0, till=None, roots=roots, nflags=1, tracked=[0], nlocks=1, nqueues=1,
+                                           nchans=1, res=[])))
+    return out
+
+
 def run(ctx):
-    machine_prop.run(ctx, FAMILIES, MONITORS)
+    machine_prop.run(ctx, FAMILIES, MONITORS, extra_scenarios=teardown_races(ctx.rng, ctx.n(40, 800)))
 
 
 def search(ctx):
